@@ -56,3 +56,26 @@ PROPS = {
         "rule": "same generator as C11 plus one push per error code (every code in thorough, class boundaries and a stride in quick); judged per transition: class bit, latch, monotonicity, SRQ only with MSS / on every rise",
     },
 }
+
+NOT_CLAIMED = {}
+
+_T = {
+    "C14": ("Theorems toStr32_spec / toStr64_spec: for every value < 2^w, every base argument, signedness and buffer length the model of UInt{32,64}ToStrBaseSign stores exactly the leading `len` characters of the canonical text, returns their number, writes the NUL iff a byte remains, and no step divides by zero, wraps or indexes outside the digit table; canon_value: the canonical text has no leading zero, only digits of the base and denotes the value. Stated over the divisor constants regenerated from utils.c. The model is tied to the C code by differential testing, which is what limits the assurance.",
+            "Lean kernel + axioms propext/Classical.choice/Quot.sound; translator for the switch(base) constants and digit alphabet; model-to-code correspondence is testing (boundary and stratified values x bases x buffer lengths 0..70 under ASan)",
+            "Lean 4 theorem (induction on the digit loop) over generated constants + differential correspondence"),
+    "C10": ("Theorems queue_refines / queue_owns_texts: for every capacity >= 1 and every history of pushes (any code, text, declared length, allocation failure), pops, SYST:ERR?, clears and counts, the model of fifo.c + error.c produces exactly the observations of an abstract bounded FIFO with -350 overflow marker, every live allocation is referenced by exactly one entry, nothing is freed twice, and an empty queue holds no allocation. Ring invariant and abstraction lemmas per fifo operation. Real malloc/free is observed by ASan and a link-time allocation counter, not proved.",
+            "Lean kernel + standard axioms; hand-written model of fifo.c/error.c tied by exhaustive short histories (capacities 1..4) and random long ones in configurations A and C with injected strndup failures",
+            "Lean 4 refinement proof (ring buffer -> list) with ghost allocator + differential correspondence"),
+    "C11": ("Theorem coherent_reachable: every state reachable from initialisation by any history of event/condition/enable/SRE writes (all 16-bit values), error push/pop/clear, *CLS and clearing queries satisfies the five status-byte equivalences; proved as an inductive invariant of the table-driven model of SCPI_RegSet instantiated with the register tables regenerated from ieee488.c.",
+            "Lean kernel + standard axioms; translator for register/group tables and bit constants; correspondence = lock-step comparison of every transition of exhaustive short and random long histories",
+            "Lean 4 inductive invariant over BitVec 16 state machine with generated tables + differential correspondence"),
+    "C12": ("Theorems class_bit (over the generated errs[] table, all 65536 codes by range reasoning), push_sets_exactly_class_bit, cond_latches_*, event_monotone, srq_regset, srq_step on the same model as C11.",
+            "Lean kernel + standard axioms; translator for errs[] and register tables; correspondence as C11 plus one push per error code",
+            "Lean 4 theorems over generated class table and register model + differential correspondence"),
+}
+for _k, (_a, _b, _c) in _T.items():
+    PROPS[_k]["level_text"], PROPS[_k]["level_note"], PROPS[_k]["technique"] = _a, _b, _c
+
+# properties whose theorem module is not complete yet are not claimed
+for _k in ("C11", "C12"):
+    PROPS[_k]["unclaimed"] = True
